@@ -146,6 +146,8 @@ def make_groups(rng, p, style="contig"):
     """list of index arrays partitioning range(p)."""
     if p == 1:
         return [np.array([0])]
+    if style == "singletons_rev":
+        return [np.array([j]) for j in range(p - 1, -1, -1)]      # as many groups as features, listed in reverse order
     sizes = []
     left = p
     while left > 0:
